@@ -46,3 +46,50 @@ pub trait VerifAsF64 { fn verif_as_f64(self) -> f64; }
 impl VerifAsF64 for usize { #[verifier::external_body] fn verif_as_f64(self) -> (r: f64) ensures r == f64_of_int(self as int) { self as f64 } }
 impl VerifAsF64 for u8 { #[verifier::external_body] fn verif_as_f64(self) -> (r: f64) ensures r == f64_of_int(self as int) { self as f64 } }
 impl VerifAsF64 for isize { #[verifier::external_body] fn verif_as_f64(self) -> (r: f64) ensures r == f64_of_int(self as int) { self as f64 } }
+
+// R13 (assumptions A-LIB-ITER): provided `Iterator` methods cannot be given a specification in Verus, so the
+// extractor routes `recv.m(args)` through a wrapper whose body is exactly `recv.m(args)`.  Each contract below is
+// the definition of the adapter in `core::iter`, stated over vstd's `remaining()` view of an iterator.
+use vstd::std_specs::iter::IteratorSpec;
+
+#[verifier::external_type_specification]
+#[verifier::external_body]
+#[verifier::reject_recursive_types(I)]
+pub struct ExEnumerate<I>(::core::iter::Enumerate<I>);
+
+#[verifier::external_body]
+pub fn verif_enumerate<I: Iterator>(it: I) -> (r: ::core::iter::Enumerate<I>)
+    ensures r.remaining() == Seq::new(it.remaining().len(), |k: int| (k as usize, it.remaining()[k]))
+{ it.enumerate() }
+
+#[verifier::external_body]
+pub fn verif_zip<I: Iterator, J: Iterator>(a: I, b: J) -> (r: ::core::iter::Zip<I, J>)
+    ensures r.remaining() == Seq::new(if a.remaining().len() <= b.remaining().len() { a.remaining().len() } else { b.remaining().len() }, |k: int| (a.remaining()[k], b.remaining()[k]))
+{ a.zip(b) }
+
+/// `it.fold(init, f)` in invariant form: `inv(k, acc)` holds of the accumulator before item k is consumed.
+#[verifier::external_body]
+pub fn verif_fold<I: Iterator, B, F: FnMut(B, I::Item) -> B>(it: I, init: B, f: F, Ghost(inv): Ghost<spec_fn(int, B) -> bool>) -> (r: B)
+    requires
+        inv(0, init),
+        forall |k: int, a: B| 0 <= k < it.remaining().len() && inv(k, a) ==> #[trigger] f.requires((a, it.remaining()[k])),
+        forall |k: int, a: B, o: B| 0 <= k < it.remaining().len() && inv(k, a) && #[trigger] f.ensures((a, it.remaining()[k]), o) ==> inv(k + 1, o),
+    ensures
+        inv(it.remaining().len() as int, r),
+{ it.fold(init, f) }
+
+/// `it.map(f).collect::<Vec<_>>()` (= itertools `collect_vec`) for a closure without mutable state
+#[verifier::external_body]
+pub fn verif_map_collect<I: Iterator, U, F: FnMut(I::Item) -> U>(it: I, f: F) -> (r: Vec<U>)
+    requires forall |k: int| 0 <= k < it.remaining().len() ==> #[trigger] f.requires((it.remaining()[k],)),
+    ensures r.len() == it.remaining().len(),
+        forall |k: int| 0 <= k < it.remaining().len() ==> #[trigger] f.ensures((it.remaining()[k],), r[k]),
+{ it.map(f).collect() }
+
+/// `it.map(f).unzip()` into two Vecs
+#[verifier::external_body]
+pub fn verif_map_unzip<I: Iterator, U, V, F: FnMut(I::Item) -> (U, V)>(it: I, f: F) -> (r: (Vec<U>, Vec<V>))
+    requires forall |k: int| 0 <= k < it.remaining().len() ==> #[trigger] f.requires((it.remaining()[k],)),
+    ensures r.0.len() == it.remaining().len(), r.1.len() == it.remaining().len(),
+        forall |k: int| 0 <= k < it.remaining().len() ==> #[trigger] f.ensures((it.remaining()[k],), (r.0[k], r.1[k])),
+{ it.map(f).unzip() }
